@@ -1,6 +1,7 @@
 import SF.Lemmas.SuperSmoother
 import SF.Lemmas.Lagf
 import SF.Lemmas.Roof
+import SF.Lemmas.LagRsi
 import SF.Lemmas.Real
 import Mathlib.Analysis.Real.Pi.Bounds
 /-
@@ -26,6 +27,12 @@ started at the first value, output (L0 + 2L1 + 2L2 + L3)/6 — for every γ and 
 `len − 1` / `len − 2` indexing are proved equal to plain delays) -/
 theorem laguerreFilter_eq (g : α) (xs : List α) :
     (lagfCore (α := α) g).outAfter xs = .ok (Spec.laguerreFilter g xs) := Lagf.outAfter_eq g xs
+
+/-- **LaguerreRSI equals the batch re-evaluation**: gamma = 2/(N+1); the first two values only fill the zero initial
+state; then the four-stage ladder from zeros and CU/(CU+CD) over the three adjacent stage pairs, the previous value being
+kept while CU+CD = 0.  Every N, every history; no panic. -/
+theorem laguerreRsi_eq (N : Nat) (xs : List α) :
+    (lagRsiCore (α := α) N).outAfter xs = .ok (Spec.laguerreRsi N xs) := LagRsi.outAfter_eq N xs
 
 /-- one step of the ladder, as the spec evaluates it -/
 theorem laguerre_ladder_step (g : α) (init : α × α × α × α) (r : List α) (x : α) :
